@@ -115,9 +115,9 @@ func envLegacy(name string, typ byte, seq uint32, body *wv.V) []byte {
 }
 
 func vStruct(fs ...wv.Field) *wv.V     { return &wv.V{T: wv.TStruct, Fields: fs} }
-func vBin(s string) *wv.V             { return &wv.V{T: wv.TBinary, Bin: []byte(s)} }
-func vI32(n int32) *wv.V              { return &wv.V{T: wv.TI32, U: uint64(uint32(n))} }
-func vI64(n int64) *wv.V              { return &wv.V{T: wv.TI64, U: uint64(n)} }
+func vBin(s string) *wv.V              { return &wv.V{T: wv.TBinary, Bin: []byte(s)} }
+func vI32(n int32) *wv.V               { return &wv.V{T: wv.TI32, U: uint64(uint32(n))} }
+func vI64(n int64) *wv.V               { return &wv.V{T: wv.TI64, U: uint64(n)} }
 func vList(et byte, xs ...*wv.V) *wv.V { return &wv.V{T: wv.TList, ET: et, Items: xs} }
 func fld(id uint16, v *wv.V) wv.Field  { return wv.Field{ID: id, V: v} }
 
